@@ -9,7 +9,7 @@ EXPLANATION = ('POLARITY rule on every state-changing site: MH: the only store o
                's\' and U < min(1, n\'/n), candidate inside the tree replaced only under U < n\'\'/max(n\'+n\'\',1) (threshold proportional to n\'\'); negated forms (!(a <= b)), '
                'min/max based selection or partial_cmp().unwrap() on these sites are violations; float->float conversions on these paths checked by type. '
                'Numeric behaviour of burn kernels on NaN/inf (trusted table) and absence of hangs on adversarial targets are not decided.')
-FLOORS = {'obligations': 56}   # counted on the reference tree; fewer instantiated obligations is reported, never passed silently
+FLOORS = {'obligations': 58}   # counted on the reference tree; fewer instantiated obligations is reported, never passed silently
 TECHNIQUE = 'polarity analysis of accept conditions over value-flow terms (ordered-comparison true edge, sign of the candidate density term), selection-only rule'
 
 
@@ -40,6 +40,11 @@ def run(ctx):
                          ('NUTSChain::step', ctx.anchor('nuts', name='step', self_head='nuts::NUTSChain', container='inherent'), {'numcast': 1})):
         if root is not None:
             narrowing_budget(ctx, 'C14', nm, [root], al, why='a narrowed log-density or energy can turn inf/NaN handling around (overflow to inf in f32, rounding to a boundary value); a conversion to a fixed narrower float type (or an f64 -> element-type read-back) on this path changes values for wider element types / back ends', sp=root['sp'])
+    # no hang on non-finite trials: the step-size search's non-finite guard shrinks its trial step (shared with C04)
+    from . import C04
+    got = ctx.borrow(C04.fre, lambda oid: oid in ('C04.fre.guard.halve', 'C04.fre.guard.trial'))
+    if len(got) < 2:
+        ctx.unknown('C14.fre_guard', 'find_reasonable_epsilon', 'guard', why='guard obligations of the step-size heuristic could not be instantiated (%d of 2)' % len(got))
     # "every state-changing site": the polarity rule above covers the anchored transitions; the frame rules show these are the
     # ONLY code that can change a chain's state (besides constructors / the seeding API)
     from . import C01, C02, C03
